@@ -955,6 +955,89 @@ func r165writeSide(c *an.Ctx) {
 	c.Count("equivalence_calls", n)
 }
 
+// combinerBody: the function value a combinator (And, Or, ValueAnd, ValueOr) returns: its own literal, or the literal
+// of a shared helper it delegates to (read in the combinator's context, see an.Focus).
+func combinerBody(fn *ssa.Function) *ssa.Function {
+	if len(fn.AnonFuncs) == 1 {
+		return fn.AnonFuncs[0]
+	}
+	for _, r := range an.Returns(fn) {
+		if len(r.Results) != 1 {
+			continue
+		}
+		for _, s0 := range an.Sources(r.Results[0]) {
+			if f := an.ClosureFn(s0); f != nil {
+				return f
+			}
+		}
+	}
+	return nil
+}
+
+// boolOf: the constant v evaluates to in the focused context (a parameter of a shared helper bound to a constant at
+// the combinator's call, its negation, a comparison of two such constants).
+func boolOf(v ssa.Value) (bool, bool) {
+	if b, ok := an.ConstBool(v); ok {
+		return b, true
+	}
+	if u, ok := v.(*ssa.UnOp); ok && u.Op == token.NOT {
+		if b, ok := boolOf(u.X); ok {
+			return !b, true
+		}
+		return false, false
+	}
+	vals := an.ValuesAt(v)
+	if len(vals) == 1 && vals[0] != v {
+		return boolOf(vals[0])
+	}
+	return false, false
+}
+
+// comparerOutcome: what a conditional edge says about the result of a dynamic comparer call: `eq(x,y)`, `!eq(x,y)`,
+// `eq(x,y) == K` / `!= K` with K a constant in the focused context. Returns the call and its result on the edge.
+func comparerOutcome(e an.CondEdge, idx int) (*ssa.Call, bool, bool) {
+	cond, branch := e.If.Cond, e.Branch
+	for {
+		if u, ok := cond.(*ssa.UnOp); ok && u.Op == token.NOT {
+			cond, branch = u.X, !branch
+			continue
+		}
+		break
+	}
+	asCall := func(v ssa.Value) *ssa.Call {
+		if idx < 0 {
+			if cl, ok := v.(*ssa.Call); ok && an.CalleeName(cl) == "dynamic" {
+				return cl
+			}
+			return nil
+		}
+		if ex, ok := v.(*ssa.Extract); ok && ex.Index == idx {
+			if cl, ok := ex.Tuple.(*ssa.Call); ok && an.CalleeName(cl) == "dynamic" {
+				return cl
+			}
+		}
+		return nil
+	}
+	if cl := asCall(cond); cl != nil {
+		return cl, branch, true
+	}
+	if bo, ok := cond.(*ssa.BinOp); ok && (bo.Op == token.EQL || bo.Op == token.NEQ) {
+		for _, pair := range [][2]ssa.Value{{bo.X, bo.Y}, {bo.Y, bo.X}} {
+			cl := asCall(pair[0])
+			k, isK := boolOf(pair[1])
+			if cl == nil || !isK {
+				continue
+			}
+			same := branch == (bo.Op == token.EQL) // the edge says call == k
+			if same {
+				return cl, k, true
+			}
+			return cl, !k, true
+		}
+	}
+	return nil, false, false
+}
+
 func r164(c *an.Ctx) {
 	const rule = "R16.4"
 	for _, t := range []struct {
@@ -963,33 +1046,26 @@ func r164(c *an.Ctx) {
 		afterLoop bool
 	}{{"And", false, true}, {"Or", true, false}} {
 		fn := mustFunc(c, rule, cmpPkg, "", t.fn)
-		if fn == nil || len(fn.AnonFuncs) != 1 {
+		if fn == nil {
 			continue
 		}
-		a := fn.AnonFuncs[0]
+		restore := an.Focus(fn)
+		a := combinerBody(fn)
+		if a == nil {
+			restore()
+			continue
+		}
 		c.SawFunc(an.FuncName(a))
 		okEarly, okAfter := false, false
 		for _, r := range an.Returns(a) {
-			b, isC := an.ConstBool(r.Results[0])
+			b, isC := boolOf(r.Results[0])
 			if !isC {
 				continue
 			}
 			inLoop := false
 			for _, e := range an.GuardingEdges(r) {
-				var call *ssa.Call
-				neg := false
-				switch x := e.If.Cond.(type) {
-				case *ssa.Call:
-					call = x
-				case *ssa.UnOp:
-					if x.Op == token.NOT {
-						call, _ = x.X.(*ssa.Call)
-						neg = true
-					}
-				}
-				if call != nil && an.CalleeName(call) == "dynamic" {
+				if call, outcome, ok := comparerOutcome(e, -1); ok && call != nil {
 					inLoop = true
-					outcome := e.Branch != neg // the comparer's result on this edge
 					if outcome == t.stopOn && b == t.stopOn {
 						okEarly = true
 					}
@@ -1011,16 +1087,22 @@ func r164(c *an.Ctx) {
 			}
 		})
 		c.Check(sameArgs, rule, "pkg/cmp."+t.fn+"|comparers see (x, y) in order", a.Pos(), "", "a combined comparer is not called with (x, y)")
+		restore()
 	}
 	for _, t := range []struct {
 		fn     string
 		stopOn bool
 	}{{"ValueAnd", false}, {"ValueOr", true}} {
 		fn := mustFunc(c, rule, cmpPkg, "", t.fn)
-		if fn == nil || len(fn.AnonFuncs) != 1 {
+		if fn == nil {
 			continue
 		}
-		a := fn.AnonFuncs[0]
+		restore := an.Focus(fn)
+		defer restore()
+		a := combinerBody(fn)
+		if a == nil {
+			continue
+		}
 		c.SawFunc(an.FuncName(a))
 		var call *ssa.Call
 		an.Instrs(a, func(in ssa.Instruction) {
@@ -1034,24 +1116,18 @@ func r164(c *an.Ctx) {
 		}
 		okEarly, okAfter := false, false
 		for _, r := range an.Returns(a) {
-			eqv, isC := an.ConstBool(r.Results[0])
+			eqv, isC := boolOf(r.Results[0])
 			if !isC {
 				continue
 			}
-			okConst, isOkC := an.ConstBool(r.Results[1])
+			okConst, isOkC := boolOf(r.Results[1])
 			// early return: guarded by ok2 true and equal == stopOn
 			guardOk, guardEq := false, false
 			for _, e := range an.GuardingEdges(r) {
-				neg := false
-				cond := e.If.Cond
-				if u, ok := cond.(*ssa.UnOp); ok && u.Op == token.NOT {
-					cond = u.X
-					neg = true
-				}
-				if an.IsExtractOf(cond, call, 1) && (e.Branch != neg) {
+				if cl, outcome, ok := comparerOutcome(e, 1); ok && cl == call && outcome {
 					guardOk = true
 				}
-				if an.IsExtractOf(cond, call, 0) && ((e.Branch != neg) == t.stopOn) {
+				if cl, outcome, ok := comparerOutcome(e, 0); ok && cl == call && outcome == t.stopOn {
 					guardEq = true
 				}
 			}
@@ -1085,7 +1161,7 @@ func r164(c *an.Ctx) {
 								if u, isNot := cond.(*ssa.UnOp); isNot && u.Op == token.NOT {
 									cond, neg = u.X, true
 								}
-								if an.IsExtractOf(cond, call, 1) && e.Branch != neg {
+								if cl, outcome, ok := comparerOutcome(e, 1); ok && cl == call && outcome {
 									spoke = true
 								}
 								// `ok = ok || applies`: true because the flag was already true
